@@ -19,7 +19,7 @@ WALL = {'quick': 170, 'thorough': 3000}
 CHUNK = 4
 CASE_TIMEOUT = 900
 DET_K = 3
-SELFTEST = {'quick': 24, 'thorough': 96}
+SELFTEST = {'quick': 12, 'thorough': 96}
 RULE = ('case kinds (swarm-weighted): roundtrip = a Grid on random orderings/shape/dtype written with '
         'writeH5Dataset on process grid P1 (several times, layouts and name conventions) and loaded with '
         'loadFromFile on a different process grid P2, file content checked with serial h5py; restart = '
